@@ -1,7 +1,7 @@
 (* C05 — Result models are as strict as the schema.  Property theorems only. *)
 From Coq Require Import List String Ascii Bool ZArith.
 From AC Require Import Base.Strs Base.Sexp Base.Json Gql.Schema Gql.Exec Py.Ann Py.Pydantic
-     Model.Names Model.Results Proofs.ResultsP Proofs.ResultsRunP Proofs.ResultsAbsP Proofs.ResultsObjP Proofs.ResultsStrictP.
+     Model.Names Model.Results Proofs.ResultsP Proofs.ResultsRunP Proofs.ResultsAbsP Proofs.ResultsObjP Proofs.ResultsMixP Proofs.ResultsMixCovP Proofs.ResultsStrictP Proofs.ResultsMixStrictP.
 Import ListNotations.
 Local Open Scope string_scope.
 Local Open Scope list_scope.
@@ -22,6 +22,9 @@ Definition C05_strict_full : Prop :=
         Float accepts true / "12", Boolean accepts 0 / 1 / "yes" / 1.0 ...; String, ID, enums and custom
         scalars: nothing more).  Required keys, null at non-null, list structure, object shape, nested
         objects at any depth and __typename literals are enforced exactly.
+        UNION-typed composite fields are included (the discriminated union is as strict as the members'
+        classes); INTERFACE-typed ones are not: the Literal of the base class contains the interface's own
+        name (C05_interface_self_typename_accepted below).
         Guards beyond C01's (sels_strict): no __typename directly at the operation root (F29: plain str),
         no @skip/@include on a field of non-null type (its added Optional also admits an explicit null),
         every custom scalar used is configured (otherwise the annotation is Any, which admits null).
@@ -53,11 +56,29 @@ Theorem C05_strict_partial_rejects :
 Proof. exact op_strict_rejects. Qed.
 Print Assumptions C05_strict_partial_rejects.
 
+(* the same with fragment spreads used as MIXIN base classes (guards op_okM _ true + sels_strictM: the
+   mixin fragments are on the object type itself and again strict — in particular without __typename,
+   which a fragment class types as plain str; table guards as for C01_accepts_partial_mixins) *)
+Theorem C05_strict_partial_mixins :
+  forall C S frs F kind name sels root own pub' cls g gs j n,
+    root_type_name S kind = Ok root ->
+    op_parse F C S frs kind name [] sels = Ok (own, pub', false) ->
+    all_classes F C S frs (DOp kind name [] sels) = Ok cls ->
+    op_okM g true C S frs root sels = true -> sels_strictM gs C S frs false root sels = true ->
+    nodupb (map c_name cls) = true -> no_basemodel cls = true -> frag_no_skip F C S frs = true ->
+    n >= F + g + 2 ->
+    accepts n cls (schema_enums S) (AClass (pascal_s name)) j = true ->
+    covers n cls (AClass (pascal_s name)) j = true ->
+    exists fc0, forall fc, fc >= fc0 -> conf_op_gen lax_leaf false fc S frs root sels j = true.
+Proof. exact op_strict_mix. Qed.
+Print Assumptions C05_strict_partial_mixins.
+
 (* at the level of one generated class, any depth below it *)
 Theorem C05_object_strict :
-  forall C S frs fuel g gs nested pub cn tn sels tv out pub' cs kv n,
-    parse_type_def fuel C S frs pub cn tn sels false [] tv = Ok (out, pub', false) ->
+  forall C S frs fuel g gs nested pub cn tn sels at_ tv out pub' cs kv n,
+    parse_type_def fuel C S frs pub cn tn sels at_ [] tv = Ok (out, pub', false) ->
     sels_ok g true C S frs nested tn tn sels = true -> sels_strict gs C S frs nested tn sels = true ->
+    (at_ = true -> has_typename sels = true) ->
     tv = (if nested then Some [tn] else None) -> table_ok cs out ->
     accepts n cs (schema_enums S) (AClass cn) (JObj kv) = true ->
     covers n cs (AClass cn) (JObj kv) = true ->
@@ -166,7 +187,11 @@ Proof. split; reflexivity. Qed.
         enum, __typename literal; an accepted payload with a lax leaf ("1" for Int), and rejected
         corruptions (null at non-null, missing required key, foreign __typename, wrong kind) ---- *)
 Definition SY : schema :=
-  {| s_types := [("Query", DObject [] [("users", TNonNull (TList (TNonNull (TNamed "User"))))]);
+  {| s_types := [("Query", DObject [] [("users", TNonNull (TList (TNonNull (TNamed "User"))));
+                                       ("found", TNamed "Hit")]);
+                 ("Bot", DObject [] [("version", TNamed "Int")]);
+                 ("Hit", DUnion ["User"; "Bot"]);
+                 ("Named", DInterface [] [("fullName", TNamed "String")]);
                  ("User", DObject [] [("id", TNonNull (TNamed "ID")); ("fullName", TNamed "String");
                                       ("role", TNonNull (TNamed "Role")); ("address", TNamed "Address")]);
                  ("Address", DObject [] [("city", TNonNull (TNamed "String")); ("zip", TNamed "Int")]);
@@ -212,3 +237,85 @@ Proof.
   split; [vm_compute; reflexivity|].      (* instantiates cls *)
   vm_compute. repeat split.
 Qed.
+
+(* ---- non-vacuity of C05_strict_partial_mixins: a mixin that spreads another mixin with a nested object;
+        a corruption inside the inherited part is rejected ---- *)
+Definition frsN : list fragdef :=
+  [{| fr_name := "UserBits"; fr_on := "User"; fr_mixins := [];
+      fr_sel := [SField None "fullName" true [] None; SSpread "UserMore" false] |};
+   {| fr_name := "UserMore"; fr_on := "User"; fr_mixins := [];
+      fr_sel := [SField (Some "homeAddress") "address" false [] (Some [SField None "city" false [] None])] |}].
+Definition selsN : list sel :=
+  [SField None "users" false []
+     (Some [SField None "__typename" false [] None; SField None "id" false [] None;
+            SSpread "UserBits" false; SField None "role" false [] None])].
+Definition userN (addr : json) : json :=
+  JObj [("users", JArr [JObj [("__typename", JStr "User"); ("id", JStr "1"); ("fullName", JStr "A");
+                              ("homeAddress", addr); ("role", JStr "ADMIN")]])].
+
+Example C05_mixins_hypotheses_satisfiable :
+  exists own pub' cls,
+    root_type_name SY "query" = Ok "Query" /\
+    op_parse 10 C0 SY frsN "query" "GetUsers" [] selsN = Ok (own, pub', false) /\
+    all_classes 10 C0 SY frsN (DOp "query" "GetUsers" [] selsN) = Ok cls /\
+    op_okM 10 true C0 SY frsN "Query" selsN = true /\ sels_strictM 10 C0 SY frsN false "Query" selsN = true /\
+    nodupb (map c_name cls) = true /\ no_basemodel cls = true /\ frag_no_skip 10 C0 SY frsN = true /\
+    accepts 22 cls (schema_enums SY) (AClass (pascal_s "GetUsers")) (userN (JObj [("city", JStr "X")])) = true /\
+    covers 22 cls (AClass (pascal_s "GetUsers")) (userN (JObj [("city", JStr "X")])) = true /\
+    conf_op 10 SY frsN "Query" selsN (userN (JObj [("city", JStr "X")])) = true /\
+    accepts 22 cls (schema_enums SY) (AClass (pascal_s "GetUsers")) (userN (JObj [("city", JNull)])) = false /\
+    accepts 22 cls (schema_enums SY) (AClass (pascal_s "GetUsers")) (userN (JObj [])) = false.
+Proof.
+  do 3 eexists.
+  split; [reflexivity|].
+  split; [vm_compute; reflexivity|].
+  split; [vm_compute; reflexivity|].
+  vm_compute. repeat split.
+Qed.
+
+(* ---- a union position: strict; an interface position: the interface's own name is an accepted
+        __typename although no conformant response carries it ---- *)
+Definition selsU : list sel :=
+  [SField None "found" false []
+     (Some [SField None "__typename" false [] None;
+            SInline (Some "Bot") false [SField (Some "v") "version" false [] None];
+            SInline (Some "User") false [SField None "id" false [] None]])].
+
+Example C05_union_hypotheses_satisfiable :
+  exists own pub' cls,
+    root_type_name SY "query" = Ok "Query" /\
+    op_parse 10 C0 SY [] "query" "Find" [] selsU = Ok (own, pub', false) /\
+    all_classes 10 C0 SY [] (DOp "query" "Find" [] selsU) = Ok cls /\
+    op_ok 10 true C0 SY [] "Query" selsU = true /\ sels_strict 10 C0 SY [] false "Query" selsU = true /\
+    no_basemodel own = true /\
+    accepts 12 cls (schema_enums SY) (AClass "Find")
+            (JObj [("found", JObj [("__typename", JStr "Bot"); ("v", JInt 3)])]) = true /\
+    covers 12 cls (AClass "Find") (JObj [("found", JObj [("__typename", JStr "Bot"); ("v", JInt 3)])]) = true /\
+    accepts 12 cls (schema_enums SY) (AClass "Find")
+            (JObj [("found", JObj [("__typename", JStr "Hit"); ("v", JInt 3)])]) = false /\
+    accepts 12 cls (schema_enums SY) (AClass "Find")
+            (JObj [("found", JObj [("__typename", JStr "User"); ("v", JInt 3)])]) = false.
+Proof.
+  do 3 eexists.
+  split; [reflexivity|].
+  split; [vm_compute; reflexivity|].
+  split; [vm_compute; reflexivity|].
+  vm_compute. repeat split.
+Qed.
+
+Definition SI : schema :=
+  {| s_types := [("Query", DObject [] [("named", TNamed "Named")]);
+                 ("Named", DInterface [] [("name", TNamed "String")]);
+                 ("A", DObject ["Named"] [("name", TNamed "String")]);
+                 ("Int", DScalar); ("String", DScalar)];
+     s_query := Some "Query"; s_mutation := None; s_subscription := None |}.
+Definition selsI : list sel :=
+  [SField None "named" false [] (Some [SField None "__typename" false [] None; SField None "name" false [] None])].
+Example C05_interface_self_typename_accepted :
+  exists cls,
+    all_classes 20 C0 SI [] (DOp "query" "Q" [] selsI) = Ok cls /\
+    let j := JObj [("named", JObj [("__typename", JStr "Named"); ("name", JStr "n")])] in
+    conf_op 20 SI [] "Query" selsI j = false /\
+    conf_op_gen lax_leaf false 20 SI [] "Query" selsI j = false /\
+    accepts 20 cls (schema_enums SI) (AClass "Q") j = true /\ covers 20 cls (AClass "Q") j = true.
+Proof. eexists. split; [vm_compute; reflexivity|]. vm_compute. repeat split. Qed.
